@@ -179,6 +179,14 @@ def run_contracts(ctx, contracts, registry, workloads=(), concrete_env=None, mon
                 ctx._pending_refuted.append((c, r, rid, witness))
             elif r["verdict"] == "undecided":
                 led = ledger.get(rid)
+                fn_hashes = {v.get("hash") for k, v in ledger.items() if k.startswith(c_target + ":")}
+                if led is None and fn_hashes and out["hash"] not in fn_hashes and not updating:
+                    # the function changed since the ledger was written and now generates an obligation (e.g. a new partial
+                    # operation) that does not discharge: every obligation of a function under contract must hold
+                    lost_functions.add(c_target)
+                    ctx._pending_lost = getattr(ctx, "_pending_lost", [])
+                    ctx._pending_lost.append((c, r, rid))
+                    continue
                 if led is not None and not updating:
                     if led.get("hash") == out["hash"] and led.get("chash") == chash(c):
                         # identical function source and identical contract as when it was discharged: proof cache
